@@ -188,7 +188,7 @@ int incl(const TA& a, const TA& b, size_t limit) {
 	std::vector<bool> fa(size_t(na), false); for (long f : a.finals) fa[size_t(ia[f])] = true;
 	std::vector<std::set<uint64_t>> known(static_cast<size_t>(na));
 	std::vector<std::vector<uint64_t>> kv(static_cast<size_t>(na));
-	size_t total = 0; bool changed = true;
+	size_t total = 0; bool changed = true; size_t work = 0; const size_t work_limit = limit * 40;
 	struct AR { int parent; Sym sym; std::vector<int> ch; };
 	std::vector<AR> arules;
 	for (const Rule& r : a.rules) { AR x; x.parent = ia[r.parent]; x.sym = Sym(r.sym, int(r.ch.size())); for (long c : r.ch) x.ch.push_back(ia[c]); arules.push_back(x); }
@@ -203,6 +203,7 @@ int incl(const TA& a, const TA& b, size_t limit) {
 			std::vector<size_t> lim(k); for (size_t i = 0; i < k; ++i) lim[i] = kv[size_t(r.ch[i])].size();
 			while (true) {
 				uint64_t S = 0;
+				if ((work += 1 + (brs ? brs->size() : 0)) > work_limit) return -1;
 				if (brs) for (const BR& br : *brs) {
 					bool ok = true;
 					for (size_t i = 0; i < k; ++i) if (!((kv[size_t(r.ch[i])][idx[i]] >> br.ch[i]) & 1)) { ok = false; break; }
